@@ -1,6 +1,8 @@
 CONSTANTS FlawShallowListFreeze = TRUE
  FlawSharedConstants = FALSE
  FlawInPlaceSort = FALSE
+ FlawAppendSharesCapacity = FALSE
+ OnlyTargets = {}
  MaxMut = 2
  DeepVias = {"direct", "alias"}
  LastVias = {}
